@@ -3,7 +3,10 @@ import itertools
 from orchestrate import Case
 import exprgen as X
 
-RULE = ("expressions: every (parent operator, child operator, side) combination over the 15 binary operators, AND, OR and "
+RULE = ("queries: the structured family of ~70 select / join trees of C12 plus random trees, INSERT with 0-3 rows of 1-4 literals, "
+        "UPDATE with 1-3 assignments, DELETE, each with random WHERE trees: to_string() must equal the transcribed Display "
+        "(QueryText.query_text), which is proved to be read back by the grammar as the same query; "
+        "expressions: every (parent operator, child operator, side) combination over the 15 binary operators, AND, OR and "
         "the 3 unary operators with column leaves (so nothing folds), the same with a literal leaf, all three-level chains "
         "over a reduced operator set (thorough), random trees to depth 4 with escape-free literals; the implementation's "
         "to_string() is lexed and parsed by the extracted ladder parser and compared with the tree that was built; "
@@ -54,14 +57,50 @@ def gen_trees(rng, tier):
     return trees
 
 
+def gen_queries(rng, tier):
+    """the four query kinds with identifier names, escape-free literals and conditions from the expression generator"""
+    from props import c12
+    import pkggen as G
+    qs = []
+    cond = lambda names: X.random_expr(rng, rng.randint(1, 3), names, SAFE_LITS, 0.7) if rng.random() < 0.8 else None
+    for s in c12.trees(2, rng, True):
+        qs.append("(query_text %s)" % c12.enc_sel(s))
+    for _ in range(150 if tier == "quick" else 4000):
+        qs.append("(query_text %s)" % c12.enc_sel(c12.random_tree(rng, rng.choice([1, 2, 3]))))
+        t = rng.choice(["T", "Foo", "_Tab1", "a_b"])
+        rows = [[rng.choice(SAFE_LITS) for _ in range(rng.randint(1, 4))] for _ in range(rng.randint(0, 3))]
+        qs.append("(query_text (insert %s %s))" % (X.enc_str(t), G.enc_rows(rows)))
+        ups = [(rng.choice(["A", "B", "Col_3"]), rng.choice(SAFE_LITS)) for _ in range(rng.randint(1, 3))]
+        qs.append("(query_text (update %s (%s) %s))" % (X.enc_str(t), " ".join("(%s %s)" % (X.enc_str(c), X.enc_value(v)) for c, v in ups),
+                                                        G.enc_cond(cond(["A", "B", "K"]))))
+        qs.append("(query_text (delete %s %s))" % (X.enc_str(t), G.enc_cond(cond(["A", "K"]))))
+    return qs
+
+
+DEGENERATE = ["(query_text (update (84) () ()))", "(query_text (update (84) () ((col (75)))))", "(query_text (insert (84) (())))"]
+
+
 def gen_cases(rng, tier, info):
     trees = gen_trees(rng, tier)
     cmds = []
     for t in trees:
         cmds.append("(expr_text %s)" % X.enc_expr(t))
     cases = [Case("text-%d" % i, cmds[i:i + 300]) for i in range(0, len(cmds), 300)]
-    info.update({"expression_trees": len(trees)})
+    qs = gen_queries(rng, tier)
+    cases += [Case("query-%d" % i, qs[i:i + 200], ("query",)) for i in range(0, len(qs), 200)]
+    cases.append(Case("degenerate-queries", DEGENERATE, ("query", "degenerate")))
+    info.update({"expression_trees": len(trees), "queries": len(qs)})
     return cases
+
+
+def classify_known(v):
+    return "degenerate_query_text" if v.get("kind") == "degenerate_query_text" else None
+
+
+def grammatical(text):
+    """a cheap necessary condition taken from the grammar: AssignmentList and Row need at least one element"""
+    import re
+    return not re.search(r" SET\s*(WHERE|$)", text) and "VALUES ()" not in text and ", )" not in text and "(, " not in text
 
 
 def nontrivial(case):
@@ -82,6 +121,23 @@ def sample_rows():
 def oracle(ctx):
     bad = []
     items = []
+    # queries: the implementation's text must be the text of the Display transcription (QueryText.query_text), for which
+    # QueryTextProofs.query_roundtrip shows that the grammar reads it back as the same query
+    for c, outs, mouts in zip(ctx.cases, ctx.impl_out, ctx.model_out):
+        if "query" not in c.tags:
+            continue
+        for cmd, o, m in zip(c.cmds, outs, mouts):
+            if o in ("panic", "abort", "timeout"):
+                bad.append({"kind": "panic", "what": "printing a query panicked", "cmds": [cmd], "impl": o})
+                continue
+            text = X.dec_str(o[len("(ok "):-1]) if o.startswith("(ok ") else o
+            if not grammatical(text):
+                bad.append({"kind": "degenerate_query_text", "what": "the query prints as %r, which the grammar cannot read (an empty assignment list / an empty row has no text)" % text,
+                            "cmds": [cmd], "impl": o})
+                continue
+            if o != m:
+                mt = X.dec_str(m[len("(ok "):-1]) if m.startswith("(ok ") else m
+                bad.append({"kind": "query", "what": "the query prints as %r; the grammar-faithful text of this query object is %r" % (text, mt), "cmds": [cmd], "impl": o})
     for c, outs in zip(ctx.cases, ctx.impl_out):
         for cmd, o in zip(c.cmds, outs):
             if not cmd.startswith("(expr_text "):
